@@ -728,9 +728,10 @@ OnQuiesce(m, o) ==
                             /\ Matches(x, "rem", m.pendRem[i].c, m.pendRem[i].e)
         lateDesp == \E i \in DOMAIN m.pendDesp : m.pendDesp[i].seen
                       /\ \E x \in Range(m.reg) : x.kd = "desp" /\ x.e = m.pendDesp[i].e /\ x.s \in m.alive
-        m6a == Chk(m5, ~lateRem, "C08", "a component removal was not reacted to by the poll that followed it")
+        \* (the notification is still waiting inside the framework and will run in some later tree: also residue, C11)
+        m6a == IF lateRem THEN V2(m5, "C08", "C11", "a component removal was not reacted to by the poll that followed it") ELSE m5
         m6 == IF lateRem /\ m.anyrev THEN V(m6a, "C06", "a removal registration not named by any revocation stopped working") ELSE m6a
-        m7a == Chk(m6, ~lateDesp, "C08", "an entity despawn was not reacted to by the poll that followed it")
+        m7a == IF lateDesp THEN V2(m6, "C08", "C11", "an entity despawn was not reacted to by the poll that followed it") ELSE m6
         \* removals and despawns that happened inside a reaction tree: every runner ends with a poll, so none may be
         \* left unreported when the outermost flush returns ("no later than the end of the enclosing tree")
         treeRem == \E i \in DOMAIN m.pendRem : m.pendRem[i].tree /\ ~m.pendRem[i].seen
